@@ -8,7 +8,10 @@ import (
 )
 
 // splitmix64: every random choice of the harness derives from one state
-type rng struct{ s uint64 }
+type rng struct {
+	s         uint64
+	tsSeconds bool // generate BSON timestamps with non-zero seconds (known-finding class of C01)
+}
 
 func newRng(seed uint64) *rng { return &rng{s: seed*0x9E3779B97F4A7C15 + 0x1234567} }
 func (r *rng) u64() uint64 {
